@@ -32,6 +32,33 @@ var Properties = map[string]func(*Ctx){
 	"C01": C01,
 	"C11": C11,
 	"C12": C12,
+	"C16": C16,
+}
+
+func C16(c *Ctx) {
+	R12Registry(c)
+	R12OwnerEndpoints(c)
+	R9NameIdentity(c)
+	R5RangeMut(c, func(fn string) bool {
+		return strings.Contains(fn, "service.") || strings.Contains(fn, "ListenerRemove") || strings.Contains(fn, "EndpointRemove") || strings.Contains(fn, "EventRemove")
+	}, 2)
+	// the teamserver keeps running: panic sources in the service connection handler
+	var roots []*ssa.Function
+	for _, n := range [][2]string{{PkgService, "Service.handleConnection"}} {
+		if fn := c.P.Func(n[0], n[1]); fn != nil {
+			roots = append(roots, fn)
+		}
+	}
+	scope := c.ScopeFrom(roots)
+	var svc []*ssa.Function
+	for _, fn := range scope {
+		if FuncPkgPathOf(fn) == PkgService {
+			svc = append(svc, fn)
+		}
+	}
+	R3LockPair(c, func(fn, lock string) bool { return strings.Contains(fn, "service.") }, 3)
+	R1Nil(c, svc, "-service", 1)
+	R1Bounds(c, svc, "-service", 1)
 }
 
 func C12(c *Ctx) {
